@@ -55,9 +55,12 @@ class SweepStream(Stream):
         try:
             S, pairs = paramlib.build(copy.deepcopy(d["tree"]), [0])
             kwargs = {}
+            # arguments of a top-level add_param definition with several arguments reach the USER's function as given
+            # (before the solver flattens them): that function is only asked to combine arrays of one shape
+            multi = {a for ad in d["tree"].get("adds", []) if len(ad["args"]) >= 2 for a, _ in ad["args"]}
             for k, vs, kind in d["kw"]:
                 kwargs[paramlib.pn(k)] = vs[0] if kind == "scalar" else np.array(vs)
-                if kind == "array" and len(vs) % 2 == 0 and len(vs) >= 4 and k % 2 == 0:
+                if kind == "array" and len(vs) % 2 == 0 and len(vs) >= 4 and k % 2 == 0 and k not in multi:
                     # a 2-D grid held in column-major memory order: sweep index k is still the k-th value in row-major
                     # (logical) order, as for np.reshape(v, -1)
                     kwargs[paramlib.pn(k)] = np.asfortranarray(np.array(vs).reshape(2, len(vs) // 2))
